@@ -129,6 +129,29 @@ theorem goal_invariant_after_callback (c0 : Config) (a0 : Option Nat) (cfgs : Li
   rw [(peerCount_after_callback c0 a0 cfgs ops).1 n hn hpos] at hg
   exact ⟨i, hi, hg⟩
 
+/-- **goal_invariant_overlapping_callbacks** — two membership callbacks overlap around a change to
+`n2 > 0` peers: the first has read the old membership, the second reads the new one.  The factory
+reads the list while holding its mutex, so the two commit in the order they read — the last
+completed read wins: afterwards every live UseClusterSize throughput sampler has goal
+`max(configured goal / n2, 1)`. -/
+theorem goal_invariant_overlapping_callbacks (c0 : Config) (a0 : Option Nat) (cfgs : List Config)
+    (ops : List Op) (ho : OpsIn (fun e => ':' ∉ e) ops) (n2 : Nat) (hpos : 0 < n2) :
+    ∀ key ent, (key, ent) ∈ (run c0 a0 cfgs (ops ++ [.peercb, .peerset n2, .peercb])).caches →
+      ent.epoch = (run c0 a0 cfgs (ops ++ [.peercb, .peerset n2, .peercb])).epoch →
+      ∀ s ∈ ent.slots, s.d.kind.isThroughput = true → s.d.useCluster = true → ∀ id, s.id = some id →
+        ∃ i, (run c0 a0 cfgs (ops ++ [.peercb, .peerset n2, .peercb])).insts[id]? = some i ∧
+          i.goal = max (Int.tdiv s.d.rate n2) 1 := by
+  have ho' : OpsIn (fun e => ':' ∉ e) (ops ++ [.peercb, .peerset n2]) := by
+    intro w e hmem
+    rcases List.mem_append.mp hmem with h | h
+    · exact ho w e h
+    · simp at h
+  have hsrc : srcAnswer a0 (ops ++ [.peercb, .peerset n2]) = some n2 := by
+    simp [srcAnswer, List.foldl_append, srcStep]
+  have e : ops ++ [Op.peercb, .peerset n2, .peercb] = (ops ++ [.peercb, .peerset n2]) ++ [.peercb] := by simp
+  rw [e]
+  exact goal_invariant_after_callback c0 a0 cfgs _ ho' n2 hsrc hpos
+
 /-- The second half of C13 at full strength: the instance behind every throughput sampler slot
 without UseClusterSize built since the last reload has its configured goal. -/
 def NoClusterSizeFixed : Prop :=
@@ -190,6 +213,7 @@ example : ((run cfgLeak (some 1) [] [.get 0 (str "prod"), .peerset 4, .get 1 (st
 example : ((run [(str "a", .leaf (emt true)), (str "b", .leaf { emt true with rate := 60 })] (some 1) []
     [.get 0 (str "a"), .peerset 3, .get 0 (str "b"), .peercb]).insts.map (·.goal)) = [33, 20] := by decide
 example : ((run [(str "p", .leaf (emt false))] (some 7) [] [.get 0 (str "p"), .peers 9]).insts.map (·.goal)) = [100] := by decide
+example : ((run cfgLeak (some 1) [] [.get 0 (str "prod"), .peers 2, .peercb, .peerset 3, .peercb]).insts.map (·.goal)) = [33] := by decide
 example : newGoal (-3) 2 = 1 ∧ newGoal 7 2 = 3 ∧ newGoal 0 5 = 1 := by decide
 
 end Refinery.Props.C13
